@@ -1,1 +1,140 @@
-import CnlModel.Overflow
+import CnlProofs.Overflow
+/-!
+# C07 — checked arithmetic is total: no undefined behaviour, no internal `unreachable`
+
+Same executable model as C06 (`CnlModel/Overflow.lean`): every sub-expression of every overflow
+test is evaluated in the C semantics core, so undefined behaviour *inside* a test (signed overflow,
+`lowest / -1`, division by zero, out-of-range shift) and the `unreachable("CNL internal error")`
+branch of the intrinsic path are values of the model (`Res.ub`, `Res.unreachable`).
+
+Each theorem states, for the three checked tags (`Checked tag`: saturated, throwing, trapping),
+**every integer width** and every in-range operand value, that the evaluation is *defined*
+(`Res.isDefined`: not `ub`, not `unreachable`, not out-of-bounds, not diverging) **and** is not the
+marker `.ill` of an ill-formed instantiation (so `isDefined` is not satisfied vacuously).
+
+* `arith_total`    `+ - *`, **all** type pairs including mixed signedness, both detection paths.
+* `div_total`      `/`, all type pairs including mixed signedness, both paths, divisor ≠ 0.
+* `shl_total`      `<<`, count ≥ 0, outside the open class `0 << n`, `n ≥` width.
+* `neg_total`, `convert_total`.
+* refutations from witnesses (open findings `C07.shl_zero_by_wide_count`, `C07.shr_count_ge_width`):
+  `shl_zero_wide_ub`, `shr_wide_ub`.
+
+Hypotheses beyond the task's (see `CnlProperties/C06.lean` for the witnesses; none excludes a
+built-in type): portable `*` needs `¬ MulGuardExact L R` (automatic for widths that are multiples of
+8: `arith_total_bytes`); `convert_total` needs `1 ≤ S.digits`; `shl_total` needs `L.bits < 2^31`.
+
+Nothing is left unproved.
+-/
+namespace Cnl.C07
+open Cnl Cnl.Overflow Cnl.Spec
+
+/-- `+ - *` -/
+def Arith (op : BinOp) : Prop := op = .add ∨ op = .sub ∨ op = .mul
+
+instance (op : BinOp) : Decidable (Arith op) := by unfold Arith; exact inferInstance
+
+/-- defined, and a well-formed instantiation -/
+def Total {α : Type} (x : Res α) : Prop := x.isDefined = true ∧ ∀ m, x ≠ .ill m
+
+theorem total_iff_good {α : Type} (x : Res α) : Total x ↔ Good x := Iff.rfl
+
+/-! ## 6. `+ - *` -/
+
+/-- `+ - *` under a checked tag is total for **every** pair of operand types — any widths, mixed
+signedness included — on both detection paths, for all in-range operands.  (On the portable path
+`*` needs the digit guard not to be exact, which holds for all widths that are multiples of 8.) -/
+theorem arith_total (path : Path) (tag : OvTag) (ht : Checked tag) (op : BinOp) (hop : Arith op)
+    (L R : IntTy) (hL : 1 ≤ L.bits) (hR : 1 ≤ R.bits)
+    (hg : path = .portable → op = .mul → ¬ MulGuardExact L R)
+    (l r : Int) (hl : L.InRange l) (hr : R.InRange r) :
+    Total (checkedBin path tag op (L, l) (R, r)) := by
+  cases path
+  · exact builtin_arith_defined ht hL hR hl hr hop
+  · exact portable_arith_defined ht hL hR hl hr hop (hg rfl)
+
+/-- … with no side condition for widths that are multiples of 8 (every built-in type) -/
+theorem arith_total_bytes (path : Path) (tag : OvTag) (ht : Checked tag) (op : BinOp) (hop : Arith op)
+    (L R : IntTy) (hL : 1 ≤ L.bits) (hR : 1 ≤ R.bits) (hL8 : 8 ∣ L.bits) (hR8 : 8 ∣ R.bits)
+    (l r : Int) (hl : L.InRange l) (hr : R.InRange r) :
+    Total (checkedBin path tag op (L, l) (R, r)) :=
+  arith_total path tag ht op hop L R hL hR (fun _ _ => not_mulGuardExact_of_bytes hL8 hR8 hL hR) l r hl hr
+
+/-- in particular: never undefined behaviour, never the "CNL internal error" branch -/
+theorem arith_no_ub (path : Path) (tag : OvTag) (ht : Checked tag) (op : BinOp) (hop : Arith op)
+    (L R : IntTy) (hL : 1 ≤ L.bits) (hR : 1 ≤ R.bits) (hL8 : 8 ∣ L.bits) (hR8 : 8 ∣ R.bits)
+    (l r : Int) (hl : L.InRange l) (hr : R.InRange r) :
+    (∀ k, checkedBin path tag op (L, l) (R, r) ≠ .ub k) ∧
+    (∀ m, checkedBin path tag op (L, l) (R, r) ≠ .unreachable m) := by
+  have h := (arith_total_bytes path tag ht op hop L R hL hR hL8 hR8 l r hl hr).1
+  constructor <;> intro _ he <;> rw [he] at h <;> cases h
+
+-- non-vacuity: mixed signedness on both paths, the formerly failing instances
+example : Checked .sat ∧ Checked .thr ∧ Checked .trp ∧ ¬ Checked .und ∧ ¬ Checked .nat := by decide
+example : checkedBin .builtin .sat .add (i32, -2147483648) (u32, 0) = .ok (u32, 0) := by decide
+example : checkedBin .builtin .thr .add (i32, -1) (u32, 0) = .throws false := by decide
+example : checkedBin .portable .sat .add (i32, -2147483648) (u32, 0) = .ok (u32, 2147483648) := by decide
+example : checkedBin .portable .sat .mul (i32, 2147483647) (i32, -1) = .ok (i32, -2147483647) := by decide +kernel
+example : checkedBin .portable .sat .mul (i32, -1) (u32, 2) = .ok (u32, 4294967294) := by decide +kernel
+example : checkedBin .portable .trp .sub (u64, 0) (i8, -128) = .ok (u64, 128) := by decide +kernel
+
+/-! ## 7. division, unary minus, conversion, shifts -/
+
+/-- `/` under a checked tag is total for every pair of operand types (mixed signedness included),
+both paths, every non-zero divisor: in particular `lowest / -1` is never executed. -/
+theorem div_total (path : Path) (tag : OvTag) (ht : Checked tag) (L R : IntTy) (hL : 1 ≤ L.bits)
+    (hR : 1 ≤ R.bits) (l r : Int) (hl : L.InRange l) (hr : R.InRange r) (hr0 : r ≠ 0) :
+    Total (checkedBin path tag .div (L, l) (R, r)) :=
+  div_defined ht hL hR hl hr path hr0
+
+example : checkedBin .portable .sat .div (i32, -2147483648) (i32, -1) = .ok (i32, 2147483647) := by decide
+example : checkedBin .builtin .trp .div (i64, -9223372036854775808) (i8, -1) = .trap true := by decide
+example : checkedBin .builtin .sat .div (i32, -2147483648) (u32, 1) = .ok (u32, 2147483648) := by decide
+example : checkedBin .builtin .sat .div (u32, 7) (i32, -1) = .ok (u32, 0) := by decide
+
+theorem neg_total (tag : OvTag) (ht : Checked tag) (L : IntTy) (hL : 1 ≤ L.bits) (l : Int)
+    (hl : L.InRange l) : Total (checkedNeg tag (L, l)) :=
+  neg_defined ht hL hl
+
+theorem convert_total (tag : OvTag) (ht : Checked tag) (S D : IntTy) (hS : 1 ≤ S.digits) (hD : 1 ≤ D.bits)
+    (v : Int) (hv : S.InRange v) : Total (checkedConvert tag D (S, v)) :=
+  convert_defined ht hS hD hv
+
+example : checkedNeg .sat (i32, -2147483648) = .ok (i32, 2147483647) := by decide
+example : checkedNeg .trp (i64, -9223372036854775808) = .trap true := by decide
+example : checkedConvert .thr i8 (u64, 18446744073709551615) = .throws true := by decide
+
+/-- `<<` under a checked tag is total for every count `r ≥ 0` and every operand types, both paths,
+outside the open class `0 << n` with `n ≥` width of the promoted left operand (`-1 << digits` is
+flagged wrongly — a C06 finding — but harmlessly here). -/
+theorem shl_total (path : Path) (tag : OvTag) (ht : Checked tag) (L R : IntTy) (hL : 1 ≤ L.bits)
+    (hR : 1 ≤ R.bits) (hw : L.bits ≤ 2147483647) (l r : Int) (hl : L.InRange l) (hr : R.InRange r)
+    (h0 : 0 ≤ r) (hz : ¬(l = 0 ∧ r ≥ (promote L).bits)) :
+    Total (checkedBin path tag .shl (L, l) (R, r)) := by
+  obtain ⟨j, rfl⟩ := Int.eq_ofNat_of_zero_le h0
+  exact shl_defined ht hL hR hw hl hr path (by omega)
+
+example : checkedBin .builtin .sat .shl (i32, 1) (i32, 1000) = .ok (i32, 2147483647) := by decide
+example : checkedBin .portable .sat .shl (i8, -1) (u64, 18446744073709551615) = .ok (i32, -2147483648) := by decide
+example : checkedBin .builtin .thr .shl (i64, -1) (u32, 63) = .throws false := by decide
+example : checkedBin .builtin .sat .shl (i32, 0) (i32, 31) = .ok (i32, 0) := by decide
+
+/-- open finding `C07.shl_zero_by_wide_count`: `0 << 64` executes the built-in shift with an
+out-of-range count -/
+theorem shl_zero_wide_ub :
+    checkedBin .builtin .sat .shl (i32, 0) (i32, 64) = .ub .shiftCount ∧
+    checkedBin .portable .sat .shl (i32, 0) (i32, 64) = .ub .shiftCount ∧
+    ¬ Total (checkedBin .builtin .sat .shl (i32, 0) (i32, 64)) := by
+  refine ⟨by decide, by decide, fun h => ?_⟩
+  have : checkedBin .builtin .sat .shl (i32, 0) (i32, 64) = .ub .shiftCount := by decide
+  rw [this] at h; exact absurd h.1 (by decide)
+
+/-- open finding `C07.shr_count_ge_width`: no test guards `>>`; a count ≥ width is executed -/
+theorem shr_wide_ub :
+    checkedBin .builtin .sat .shr (i32, 1) (i32, 64) = .ub .shiftCount ∧
+    checkedBin .portable .sat .shr (i32, 1) (i32, 64) = .ub .shiftCount ∧
+    ¬ Total (checkedBin .builtin .sat .shr (i32, 1) (i32, 64)) := by
+  refine ⟨by decide, by decide, fun h => ?_⟩
+  have : checkedBin .builtin .sat .shr (i32, 1) (i32, 64) = .ub .shiftCount := by decide
+  rw [this] at h; exact absurd h.1 (by decide)
+
+end Cnl.C07
